@@ -504,7 +504,16 @@ func collectSyms(t *Term, out map[string]bool) {
 
 // Query renders one SMT-LIB script: hyps ∧ ¬goal.
 func (d *Decls) query(hyps []*Term, goal *Term, wantModel []string) string {
+	return d.queryX(hyps, goal, wantModel, nil, false)
+}
+
+// queryX is query with extra terms whose values are requested after check-sat
+// (projection of a counterexample onto the function's inputs).
+func (d *Decls) queryX(hyps []*Term, goal *Term, wantModel []string, extra []*Term, qfOnly bool) string {
 	used := map[string]bool{}
+	for _, x := range extra {
+		collectSyms(x, used)
+	}
 	for _, h := range hyps {
 		collectSyms(h, used)
 	}
@@ -524,6 +533,9 @@ func (d *Decls) query(hyps []*Term, goal *Term, wantModel []string) string {
 	sb.WriteString("(set-option :produce-models true)\n(set-logic ALL)\n")
 	sb.WriteString(d.prelude(used))
 	for i, a := range d.axioms {
+		if qfOnly && hasQuantifier(a) {
+			continue
+		}
 		fmt.Fprintf(&sb, "; axiom %s\n(assert %s)\n", d.axName[i], a)
 	}
 	for _, h := range hyps {
@@ -546,6 +558,12 @@ func (d *Decls) query(hyps []*Term, goal *Term, wantModel []string) string {
 		if len(vs) > 0 {
 			fmt.Fprintf(&sb, "(get-value (%s))\n", strings.Join(vs, " "))
 		}
+	}
+	if len(extra) > 0 {
+		sb.WriteString("(echo \"PROJ\")\n")
+	}
+	for _, x := range extra {
+		fmt.Fprintf(&sb, "(get-value (%s))\n", x)
 	}
 	return sb.String()
 }
